@@ -300,7 +300,20 @@ class CallMixin(object):
         return E.const(True)
 
     def dyn_norm(self, m, n):
-        fail(n, 'norm of a dynamically sized vector needs a contract')
+        # Euclidean norm of a vector of symbolic length, by what the callers rely on: it is non-negative and dominates every
+        # component (r^2 >= v_k^2); the exact sum of squares is not modelled
+        from ir import AssumeForall, Havoc, Assume
+        if not m.is_vector():
+            fail(n, 'norm of a dynamically sized matrix')
+        r = self.new_scalar('norm', REAL)
+        self.emit(Havoc(scalars=[(r.name, REAL)]))
+        self.emit(Assume(r.rd() >= 0, 'norm is non-negative'))
+        self.emit(AssumeForall(0, m.vlen(), lambda k: (r.rd() * r.rd() >= m.vat(k) * m.vat(k)), 'norm dominates every component'))
+        self.notes.append('Eigen norm() of a dynamic vector modelled by: non-negative, r^2 >= v_k^2 for every k')
+        ns = self.namespace()
+        ns['vec'], ns['ret'] = m, r
+        self.anchor('norm', ns)
+        return r.rd()
 
     # ------------------------------------------------------------------------------------------------------ std containers
     def call_vector(self, v, name, arg_nodes, n):
